@@ -11,6 +11,7 @@ import S2.Crossing
 import S2.Crosser
 import S2.Generated.CrossFns
 import S2Proofs.Ties.C02_Pred
+import S2Proofs.Ties.C17_EdgeNum
 namespace S2Proofs.Ties.C03_Cross
 open S2 S2.Generated S2.Exact S2Proofs.Ties.C02_Pred
 set_option linter.unusedSimpArgs false
@@ -48,11 +49,13 @@ theorem tie_referenceDir : Crossing.referenceDir = CrossFns.Point_referenceDir :
   unfold Crossing.referenceDir CrossFns.Point_referenceDir
   rw [tie_Ortho]
 
-theorem tie_PointCross : Crossing.pointCross = CrossFns.Point_PointCross := by
+/-- `PointCross` (repaired, D60).  translator_c02 does not translate it any more (the exact fallback needs the big.Float →
+    float64 conversion with signed zeros); the regenerated text is `EdgeNumFns.Point_PointCross` of translator_c16, over the
+    externals `handExt` (hand models of r3/precisevector.go, source-pinned in Ties/C16_EdgeNum).  libm is not used. -/
+theorem tie_PointCross (sin cos asin : F64 → F64) (atan2 : F64 → F64 → F64) :
+    Crossing.pointCross = EdgeNumFns.Point_PointCross (C16_EdgeNum.handExt sin cos asin atan2) := by
   funext p op
-  unfold Crossing.pointCross
-  rw [tie_Vector_Ortho]
-  rfl
+  exact congrFun (congrFun (C17_EdgeNum.tie_PointCross sin cos asin atan2) p) op
 
 /-! ### s2/edge_crosser.go -/
 /-- the hand model's state, field by field in the order of the Go struct -/
@@ -196,6 +199,6 @@ theorem tie_Crossing_enum :
     (`float64(x*y)`); the model rounds every operation separately (what gc does on amd64).  The translator counts, per
     function, the products that are direct operands of `+` / `-` without such a conversion: none in these functions -/
 theorem tie_fmaSites_zero :
-    [CrossFns.Vector_Abs_fmaSites, CrossFns.Vector_Normalize_fmaSites, CrossFns.Vector_LargestComponent_fmaSites, CrossFns.Vector_Ortho_fmaSites, CrossFns.Ortho_fmaSites, CrossFns.Point_referenceDir_fmaSites, CrossFns.Point_PointCross_fmaSites, CrossFns.NewEdgeCrosser_fmaSites, CrossFns.EdgeCrosser_RestartAt_fmaSites, CrossFns.EdgeCrosser_crossingSign_fmaSites, CrossFns.EdgeCrosser_ChainCrossingSign_fmaSites, CrossFns.EdgeCrosser_CrossingSign_fmaSites, CrossFns.NewChainEdgeCrosser_fmaSites, CrossFns.CrossingSign_fmaSites, CrossFns.VertexCrossing_fmaSites, CrossFns.EdgeCrosser_EdgeOrVertexChainCrossing_fmaSites, CrossFns.EdgeCrosser_EdgeOrVertexCrossing_fmaSites, CrossFns.EdgeOrVertexCrossing_fmaSites, CrossFns.AngleContainsVertex_fmaSites] = List.replicate 19 0 := by decide
+    [CrossFns.Vector_Abs_fmaSites, CrossFns.Vector_Normalize_fmaSites, CrossFns.Vector_LargestComponent_fmaSites, CrossFns.Vector_Ortho_fmaSites, CrossFns.Ortho_fmaSites, CrossFns.Point_referenceDir_fmaSites, CrossFns.NewEdgeCrosser_fmaSites, CrossFns.EdgeCrosser_RestartAt_fmaSites, CrossFns.EdgeCrosser_crossingSign_fmaSites, CrossFns.EdgeCrosser_ChainCrossingSign_fmaSites, CrossFns.EdgeCrosser_CrossingSign_fmaSites, CrossFns.NewChainEdgeCrosser_fmaSites, CrossFns.CrossingSign_fmaSites, CrossFns.VertexCrossing_fmaSites, CrossFns.EdgeCrosser_EdgeOrVertexChainCrossing_fmaSites, CrossFns.EdgeCrosser_EdgeOrVertexCrossing_fmaSites, CrossFns.EdgeOrVertexCrossing_fmaSites, CrossFns.AngleContainsVertex_fmaSites] = List.replicate 18 0 := by decide
 
 end S2Proofs.Ties.C03_Cross
